@@ -99,7 +99,7 @@ def job_matrix(job):
                      'R|x + x': lambda R, x: (R | x) + x, '~x * R': lambda R, x: ~x * R,
                      '(R*x)/4': lambda R, x: (R * x) / 4, '0.5*(R>>x)': lambda R, x: 0.5 * (R >> x)}
             for name, f in exprs.items():
-                for mode in ('symbolic', 'numeric', 'numeric-int', 'array'):
+                for mode in ('symbolic', 'numeric', 'numeric-int', 'numeric-small', 'array'):
                     out['evaluations'] += 1
                     xk = tuple(alg.indices_for_grades[(1,)]) if rng.random() < 0.5 else tuple(rand_keys(rng, alg, 'sparse') or (1,))
                     x = alg.multivector(name='x', keys=xk)
@@ -108,6 +108,10 @@ def job_matrix(job):
                         R = alg.multivector(name='R', keys=rk)
                     elif mode == 'numeric':
                         R = mv_from(alg, rk, [float(rng.randint(-3, 3)) for _ in rk])
+                    elif mode == 'numeric-small':
+                        # small magnitudes (exact binary fractions, so every product is exact): entries of A far below 1e-8 are still entries
+                        sc = rng.choice([2.0 ** -30, 2.0 ** -40, 2.0 ** -60])
+                        R = mv_from(alg, rk, [float(rng.randint(-3, 3) or 1) * sc for _ in rk])
                     elif mode == 'numeric-int':
                         R = mv_from(alg, rk, [int(rng.randint(-3, 3) or 1) for _ in rk])      # plain ints: the matrix must not inherit an integer dtype
                     else:
